@@ -1867,10 +1867,92 @@ fn decoder_probe(rep: &mut Report) {
     ));
 }
 
+
+// ---------------------------------------------------------------------------
+// The operator ends the session (DeleteRpki / DisableRpki / hard ResetRpki cancel the
+// client's token): RpkiClient::try_connect over loopback TCP, VRPs installed, token
+// cancelled, task awaited.  "All of a cache's VRPs are removed when its session ends."
+// The branch tokio::select! takes when several are ready is drawn from a generator the
+// harness does not own, so this part REPEATS the scenario; it is a supplement, not an
+// exhaustive exploration, and it can only alarm when VRPs really stayed behind.
+// ---------------------------------------------------------------------------
+
+fn operator_cancel_once() -> Result<usize, String> {
+    use tokio::io::{AsyncReadExt, AsyncWriteExt};
+    let rt = tokio::runtime::Builder::new_current_thread().enable_all().build().map_err(|e| e.to_string())?;
+    rt.block_on(async {
+        let listener = tokio::net::TcpListener::bind("127.0.0.1:0").await.map_err(|e| format!("bind: {e}"))?;
+        let sockaddr = listener.local_addr().map_err(|e| e.to_string())?;
+        let tables: TableHandle = Arc::new(crate::table_manager::TableManager::new(1));
+        let cancel = tokio_util::sync::CancellationToken::new();
+        let state = Arc::new(RpkiState::default());
+        RpkiClient::try_connect(sockaddr, cancel.clone(), Arc::new(tokio::sync::Notify::new()), state.clone(), tables.clone());
+        let (mut sock, _) = tokio::time::timeout(std::time::Duration::from_secs(10), listener.accept()).await.map_err(|_| "the client did not connect".to_string())?.map_err(|e| e.to_string())?;
+        let mut q = [0u8; 8];
+        tokio::time::timeout(std::time::Duration::from_secs(10), sock.read_exact(&mut q)).await.map_err(|_| "no Reset Query".to_string())?.map_err(|e| e.to_string())?;
+        let mut out = Vec::new();
+        encode(&Pdu::CacheResponse, 1, 7, &mut out);
+        encode(&Pdu::Prefix(0, true), 1, 7, &mut out);
+        encode(&Pdu::EndOfData(1), 1, 7, &mut out);
+        sock.write_all(&out).await.map_err(|e| e.to_string())?;
+        let t0 = std::time::Instant::now();
+        while tables.collect_roa(packet::Family::IPV4).is_empty() {
+            if t0.elapsed() > std::time::Duration::from_secs(10) {
+                return Err("the snapshot was not installed".to_string());
+            }
+            tokio::time::sleep(std::time::Duration::from_millis(1)).await;
+        }
+        cancel.cancel();
+        // the client task ends on cancellation: wait until its end of the socket is closed
+        let mut b = [0u8; 64];
+        let _ = tokio::time::timeout(std::time::Duration::from_secs(10), async {
+            loop {
+                match sock.read(&mut b).await {
+                    Ok(0) | Err(_) => break,
+                    Ok(_) => {}
+                }
+            }
+        })
+        .await;
+        tokio::time::sleep(std::time::Duration::from_millis(20)).await;
+        Ok(tables.collect_roa(packet::Family::IPV4).len())
+    })
+}
+
+fn operator_cancel(rep: &mut Report, runs: usize) {
+    let mut left = 0usize;
+    for _ in 0..runs {
+        match operator_cancel_once() {
+            Ok(n) => {
+                rep.evaluations += 1;
+                if n > 0 {
+                    left += 1;
+                }
+            }
+            Err(e) => {
+                rep.machinery_error = Some(format!("c13 operator-cancel: {e}"));
+                return;
+            }
+        }
+    }
+    rep.notes.push(format!("c13-operator-cancel: {runs} repetitions (NOT exhaustive: tokio::select!'s choice among ready branches is not owned by the harness) of try_connect over loopback TCP, snapshot installed, token cancelled; VRPs left behind in {left}"));
+    if left > 0 {
+        rep.violation(Violation {
+            sig: "C13/session-end/left-behind/operator-cancel".into(),
+            what: format!("the session was ended by cancelling the client's token (DeleteRpki / DisableRpki / hard ResetRpki) after a snapshot of one VRP had been installed: in {left} of {runs} repetitions the VRP is still installed after the client task has gone"),
+            case: "operator-cancel".into(),
+        });
+    }
+}
+
 pub(crate) fn run_c13(replay: Option<&str>) -> Report {
     let mut rep = Report::new("C13", "hd-c13");
     report::quiet_panics();
     start_watchdog();
+    if replay == Some("operator-cancel") {
+        operator_cancel(&mut rep, 200);
+        return rep;
+    }
     if let Some(case) = replay {
         let Some(c) = parse_case(case) else {
             rep.machinery_error = Some(format!("unparsable case {case:?}"));
@@ -1894,6 +1976,7 @@ pub(crate) fn run_c13(replay: Option<&str>) -> Report {
     rep.rule = "case = (cache script from the RFC 6810/8210 grammar: version in {0,1}; reset response announcing a subset of {v4a,v4b (same prefix, other max-len),v6a}; <=R rounds of Serial Notify -> observed Serial Query -> data response (<=L announce-of-absent/withdraw-of-present PDUs) | Cache Reset | Error Report; optional Router Key PDU at every payload position) x delivery (whole segments, byte-by-byte, every single split offset) x session loss after every PDU, all run against the real serve_inner next to a second cache holding an identical VRP; plus two scripted caches under every interleaving. Distinct = distinct wire transcript x canonical (split offset, close point); non-trivial = at least one VRP PDU, round or unused PDU".into();
 
     decoder_probe(&mut rep);
+    operator_cancel(&mut rep, if thorough { 200 } else { 40 });
 
     if !thorough {
         // full product delivery x fault for one round, sum for two rounds
